@@ -201,3 +201,28 @@ class Compound:
 
     def denote(self, table):
         return self.comp.denote(table, 1)
+
+
+@contextlib.contextmanager
+def printing(E):
+    """While active, "%g" % count of a symbolic count prints its shadow value and registers the
+    printed text as a placeholder for that same symbol, so that parsing the printed string with
+    `parsing(E)` maps every literal back to the term it came from (concolic round trip)."""
+    if not E.symbolic:
+        yield
+        return
+
+    def hook(x):
+        text = '%g' % x.shadow
+        old = _PLACE.get(text)
+        if old is not None and not old.t.eq(x.t):
+            import z3
+            if not z3.simplify(old.t - x.t).eq(z3.RealVal(0)):
+                raise sym.HarnessError('two different symbolic counts print as %r' % text)
+        _PLACE[text] = x
+    prev = sym.FLOAT_HOOK
+    sym.FLOAT_HOOK = hook
+    try:
+        yield
+    finally:
+        sym.FLOAT_HOOK = prev
